@@ -311,7 +311,8 @@ func mkUpdate(m *mModel, table string, p seqPred) stmt {
 		}
 		switch c.Type {
 		case "varchar":
-			newVals[i] = fmt.Sprintf("u%d", g)
+			// (updates change the length of the row: by a few bytes, by 40 and by 80)
+			newVals[i] = fmt.Sprintf("u%d", g) + strings.Repeat("y", (g%3)*40)
 		case "boolean":
 			newVals[i] = g%2 == 1
 		default:
